@@ -362,12 +362,74 @@ def cry_obligations():
         o.append(Ob('cry_prepare_AES_C18_T%d' % T, ['C18'], enforce='runcrypt__prepare_AES', unwind=18, timeout=900, contracts=['cry.h'], defines=dT + ['WV_C18_PROPERTY'], tier=tier,
                     replace=['wv_fseek', 'buffergroup__get_instance', 'buffergroup__set_buffergroup', 'AesFactory__createCryMaster'],
                     note='the property itself: stream i is started from IV i' + tn))
+        o.append(Ob('cry_execute_encrypt_T%d' % T, ['C02', 'C08', 'C12', 'C13', 'C15'], enforce='runcrypt__execute_encrypt', timeout=900, contracts=['cry.h'],
+                    defines=dT + ['WV_FACTORY_LIGHT'], tier=tier, unwind=T + 2,
+                    replace=['runcrypt__prepare_IV_1', 'AesFactory__createCryMaster', 'multicry_master__run_multicry', 'hmac__writeFileHmac',
+                             'runcrypt__release', 'runcrypt__over'],
+                    note='write order header -> body -> tag (last write); output length; tag area written zero then once; input only read; global state fresh again' + tn))
         o.append(Ob('cry_execute_decrypt_T%d' % T, PV + ['C15'], enforce='runcrypt__execute_decrypt', timeout=900, contracts=['cry.h'], defines=dT + ['WV_FACTORY_LIGHT'], tier=tier,
                     # prepare_AES and the instance set-up are the real code here: a pointer that is only *assumed* equal (by a replaced
                     # contract) cannot be dereferenced efficiently by CBMC, and the pipeline summary reaches the files through the instance
                     replace=['runcrypt__verify', 'runcrypt__prepare_IV_2', 'wv_fseek', 'AesFactory__createCryMaster', 'multicry_master__run_multicry',
                              'runcrypt__release', 'runcrypt__over'], unwind=T + 2,
                     note='same verdict as verify; output written only after a 0 verdict and bounded by the body length; global state fresh again' + tn))
+    return o
+
+
+PIPE = dict(contracts=['pipeline.h'], defines=['WV_USE_SPEC_AES', 'WV_FACTORY_LIGHT'] + BUFSZ)
+
+
+def pair_harness(name, call, group=False, extra=''):
+    """harness of the thread-modular obligations: concrete objects, ghosts wv_c / wv_b pointed at them"""
+    if group:
+        setup = """  buffergroup *g = malloc(sizeof(buffergroup));
+  __CPROVER_assume(g != NULL);
+  g->ctrl = malloc(sizeof(bufferctrl) * 16);
+  g->buflst = malloc(sizeof(iobuffer) * 16);
+  __CPROVER_assume(g->ctrl != NULL && g->buflst != NULL);
+  u8_t id;
+#ifdef WV_ID_FIX
+  id = WV_ID_FIX;
+#else
+  __CPROVER_assume(id < 16);
+#endif
+  wv_c = &g->ctrl[id];
+  wv_b = &g->buflst[id];
+"""
+    else:
+        setup = """  bufferctrl *c = malloc(sizeof(bufferctrl));
+  iobuffer *b = malloc(sizeof(iobuffer));
+  __CPROVER_assume(c != NULL && b != NULL);
+  wv_c = c;
+  wv_b = b;
+"""
+    return 'void h_%s(void)\n{\n%s%s  %s\n  __CPROVER_assert(0, "WV_CANARY");\n}\n' % (name, setup, extra, call)
+
+
+def pipeline_obligations():
+    o = []
+    W = ['C03', 'C14', 'C04', 'C01']
+    prim = ['wv_cv_wait', 'wv_cv_notify_all']
+
+    def ob(name, fn, call, replace=(), group=False, extra='', defines_extra=(), **kw):
+        o.append(Ob(name, W, enforce=fn, replace=list(replace), harness=pair_harness(name, call, group, extra), contracts=PIPE['contracts'],
+                    defines=PIPE['defines'] + list(defines_extra), **kw))
+    ob('pipe_cmpstate', 'bufferctrl__cmpstate', 'enum bufstate_t s; bufferctrl__cmpstate(c, s);')
+    ob('pipe_wait_ready', 'bufferctrl__wait_ready', 'bufferctrl__wait_ready(c);', prim,
+       note='[C04 lemma 1] leaves only with READY/INV, re-tested under the lock after every wake-up; proved against the rely of cv.wait')
+    ob('pipe_wait_update', 'bufferctrl__wait_update', 'bufferctrl__wait_update(c);', prim)
+    ob('pipe_set_ready', 'bufferctrl__set_ready', 'bool load; bufferctrl__set_ready(c, load);', prim,
+       note='[C14] I/O-side transition EMPTY|UPDATING -> READY|INV only; [C04 lemmas 2, 4] notify under the lock, READY implies a non-empty buffer')
+    ob('pipe_set_update', 'bufferctrl__set_update', 'bufferctrl__set_update(c);', prim,
+       note='[C14] worker-side transition READY -> UPDATING only by the owner; [C03] only when fully consumed')
+    ob('pipe_get_entry', 'iobuffer__get_entry', 'iobuffer__get_entry(b);')
+    ob('pipe_require_buffer_entry', 'buffergroup__require_buffer_entry', 'buffergroup__require_buffer_entry(g, id);',
+       ['iobuffer__get_entry', 'bufferctrl__set_update', 'bufferctrl__wait_ready', 'bufferctrl__cmpstate'], group=True, timeout=600,
+       note='[C14] every look into the buffer happens in READY/INV; [C03] next block in order; [C04 lemma 3] NULL only when INV')
+    ob('pipe_wait_buffer', 'buffergroup__wait_buffer', 'buffergroup__wait_buffer(g, id);', ['bufferctrl__wait_ready'], group=True)
+    ob('pipe_worker', 'multiruncrypt_file', 'multiruncrypt_file(id, (Aesmode *)m);', ['buffergroup__wait_buffer', 'buffergroup__require_buffer_entry', 'Aesmode__runcry'],
+       group=True, timeout=600, extra='  AesEncrypt *m = malloc(sizeof(AesEncrypt));\n  __CPROVER_assume(m != NULL);\n  buffergroup__instance = g;\n', defines_extra=['WV_RUNCRY_LIGHT'],
+       note='[C03] every block handed out is transformed exactly once, immediately, by the stream the thread was started with; exit only on INV')
     return o
 
 
@@ -436,4 +498,4 @@ void h_b64_validator_other_lengths(void)
 
 
 def all_obligations():
-    return aes_obligations() + mode_obligations() + hash_obligations() + fheader_obligations() + cry_obligations() + b64_obligations()
+    return aes_obligations() + mode_obligations() + hash_obligations() + fheader_obligations() + cry_obligations() + pipeline_obligations() + b64_obligations()
